@@ -45,3 +45,27 @@ func HQDelete(c *gocrawlhq.Client, ctx context.Context, urls []gocrawlhq.URL, lo
 	HQDeleted = append(HQDeleted, cp)
 	return nil
 }
+
+// HQSeencheck models (*gocrawlhq.Client).Seencheck: HQ answers with the sub-list of the URLs it was sent that it had
+// NOT seen before (selected by HQUnseen, keyed by the value sent), or fails.
+var (
+	HQUnseen        = map[string]bool{}
+	HQSeencheckErr  bool
+	HQSeencheckSent [][]gocrawlhq.URL
+)
+
+func HQSeencheck(c *gocrawlhq.Client, ctx context.Context, urls []gocrawlhq.URL) ([]gocrawlhq.URL, error) {
+	cp := make([]gocrawlhq.URL, len(urls))
+	copy(cp, urls)
+	HQSeencheckSent = append(HQSeencheckSent, cp)
+	if HQSeencheckErr {
+		return nil, ErrHQFailed
+	}
+	var out []gocrawlhq.URL
+	for _, u := range urls {
+		if HQUnseen[u.Value] {
+			out = append(out, u)
+		}
+	}
+	return out, nil
+}
